@@ -132,12 +132,70 @@ package version
 //@ func storeVersionSet.persistEditLogs
 //@   prop C01
 //@   arith math
+//@   clock
 //@   requires writer != nil && writer.n >= 0 && forall(i, 0, len(editLogs), editLogs[i] != nil)
-//@   modifies writer.out, writer.n
+//@   modifies writer.out, writer.n, writer.persistedAt, writer.persistedOK
+//@   ghost_assign writer.persistedAt = now()
+//@   ghost_assign writer.persistedOK = (result == nil)
+//@   ensures[stamped] writer.persistedAt == now() && writer.persistedOK == (result == nil)
 //@   ensures[every_record_is_synced_before_success] result == nil ==> (calls(writer.Sync) == old(calls(writer.Sync)) + len(editLogs) && calls(writer.Write) == old(calls(writer.Write)) + len(editLogs))
 //@   ensures[earlier_records_untouched] all(i, (i >= 0 && i < old(writer.n)) ==> writer.out[i] == old(writer.out)[i])
 //@   loop 1 invariant rangeindex >= -1 && rangeindex < len(editLogs) && calls(writer.Sync) == old(calls(writer.Sync)) + rangeindex + 1 && calls(writer.Write) == old(calls(writer.Write)) + rangeindex + 1 && forall(i, 0, len(editLogs), editLogs[i] != nil) && writer.n >= old(writer.n)
 //@   loop 1 invariant all(i, (i >= 0 && i < old(writer.n)) ==> writer.out[i] == old(writer.out)[i])
+//@ end
+//@ # ---- switching to a new manifest (C01): CURRENT is replaced by renaming a temporary file that was written
+//@ # completely (never written in place), and it names a new manifest only after that manifest holds the snapshot of
+//@ # the version set, written and synced; the version set starts appending to the new manifest only after CURRENT
+//@ # names it. Orderings under a logical clock (one tick per call) --------------------------------------------------
+//@ extern func path/filepath.Join
+//@   modifies nothing
+//@ end
+//@ extern func fmt.Sprintf
+//@   modifies nothing
+//@ end
+//@ func writeFileFunc
+//@   modifies nothing
+//@ end
+//@ func renameFunc
+//@   modifies nothing
+//@ end
+//@ # switchedAt: logical time of the last successful rename onto CURRENT
+//@ ghost field storeVersionSet.switchedAt int
+//@ ghost field storeVersionSet.switches int
+//@ func storeVersionSet.setCurrent
+//@   prop C01
+//@   clock
+//@   requires writeFileFunc != renameFunc
+//@   modifies vs.switchedAt, vs.switches
+//@   ghost_assign vs.switchedAt = ite(calls(renameFunc) != old(calls(renameFunc)) && lasterrnil(renameFunc), now(), old(vs.switchedAt))
+//@   ghost_assign vs.switches = ite(calls(renameFunc) != old(calls(renameFunc)) && lasterrnil(renameFunc), old(vs.switches) + 1, old(vs.switches))
+//@   ensures[CURRENT_is_replaced_only_by_renaming_a_completely_written_temporary_file] calls(renameFunc) != old(calls(renameFunc)) ==> (calls(renameFunc) == old(calls(renameFunc)) + 1 && calls(writeFileFunc) == old(calls(writeFileFunc)) + 1 && lasterrnil(writeFileFunc) && calledat(writeFileFunc) < calledat(renameFunc))
+//@   ensures[success_means_CURRENT_was_switched] (result == nil) == (calls(renameFunc) == old(calls(renameFunc)) + 1 && lasterrnil(renameFunc))
+//@   ensures[switch_time] (result == nil ==> (vs.switchedAt == now() && vs.switches == old(vs.switches) + 1)) && (result != nil ==> (vs.switchedAt == old(vs.switchedAt) && vs.switches == old(vs.switches)))
+//@ end
+//@ # persistedAt: logical time of the last persistEditLogs call on this writer
+//@ ghost field github.com/lindb/lindb/pkg/bufioutil.BufioWriter.persistedAt int
+//@ # persistedOK: that call wrote and synced every record it was given
+//@ ghost field github.com/lindb/lindb/pkg/bufioutil.BufioWriter.persistedOK bool
+//@ func storeVersionSet.createSnapshot
+//@   assume
+//@   note the snapshot builder (nested loops over levels, sequences, reference and rollup files) is not verified here: assumed to return non-nil edit logs and to touch only reference counts
+//@   modifies any(*version).ref.val, any(*familyVersion).activeVersions[*]
+//@   ensures forall(i, 0, len(result), result[i] != nil)
+//@ end
+//@ func newBufferWriterFunc
+//@   modifies nothing
+//@   ensures result1 == nil ==> (result0 != nil && fresh(result0) && result0.n == 0)
+//@ end
+//@ func storeVersionSet.initJournal
+//@   prop C01
+//@   clock
+//@   requires writeFileFunc != renameFunc
+//@   modifies *
+//@   ensures[CURRENT_names_the_new_manifest_only_after_its_snapshot_is_written_and_synced] vs.switches != old(vs.switches) ==> (result == nil && old(vs.manifest) == nil && vs.manifest != nil && vs.switches == old(vs.switches) + 1 && vs.manifest.persistedOK && vs.manifest.persistedAt < vs.switchedAt && vs.manifest.persistedAt > old(now()))
+//@   ensures[the_version_set_appends_to_the_new_manifest_only_after_CURRENT_names_it] vs.manifest != old(vs.manifest) ==> (result == nil && vs.switches == old(vs.switches) + 1 && fresh(vs.manifest))
+//@   ensures[a_failed_switch_installs_no_writer] result != nil ==> vs.manifest == old(vs.manifest)
+//@   ensures[an_open_journal_is_kept] old(vs.manifest) != nil ==> (result == nil && vs.manifest == old(vs.manifest) && vs.switches == old(vs.switches))
 //@ end
 //@ uf vsFamily(ref, string) ref
 //@ func storeVersionSet.GetFamilyVersion
@@ -167,14 +225,19 @@ package version
 //@   ensures result != nil
 //@ end
 //@ func EditLog.apply
+//@   norefine
+//@   note applying an edit log changes the version it is applied to (files, sequences, rollup marks) and, through a store-level record, the file number counters; it does not change the edit log itself nor any journal writer (read off editLog.apply / Log.apply; assumed)
 //@   modifies *
+//@   ensures typeis(self, "*editLog") ==> (len(cast(self, "*editLog").logs) == old(len(cast(self, "*editLog").logs)) && forall(i, 0, len(cast(self, "*editLog").logs), cast(self, "*editLog").logs[i] == old(cast(self, "*editLog").logs[i])))
+//@   ensures all(w, "bufioutil.BufioWriter", w.persistedAt == old(w.persistedAt) && w.persistedOK == old(w.persistedOK))
 //@ end
 //@ stable storeVersionSet.nextFileNumber
 //@ func storeVersionSet.CommitFamilyEditLog
 //@   prop C01
+//@   clock
 //@   requires editLog != nil && typeis(editLog, "*editLog") && (vsFamily(vs, family) != nil ==> (vs.manifest != nil && vs.manifest.n >= 0)) && vs.nextFileNumber != nil
 //@   modifies *
-//@   ensures[a_version_is_installed_only_after_its_record_is_written_and_synced] calls(cast(vsFamily(vs, family), "FamilyVersion").appendVersion) != old(calls(cast(vsFamily(vs, family), "FamilyVersion").appendVersion)) ==> (result == nil && calls(old(vs.manifest).Sync) == old(calls(vs.manifest.Sync)) + 1)
+//@   ensures[a_version_is_installed_only_after_its_record_is_written_and_synced] calls(cast(vsFamily(vs, family), "FamilyVersion").appendVersion) != old(calls(cast(vsFamily(vs, family), "FamilyVersion").appendVersion)) ==> (result == nil && old(vs.manifest) != nil && old(vs.manifest).persistedOK && old(vs.manifest).persistedAt > old(now()) && old(vs.manifest).persistedAt < calledat(cast(vsFamily(vs, family), "FamilyVersion").appendVersion))
 //@   ensures[failure_installs_nothing] result != nil ==> calls(cast(vsFamily(vs, family), "FamilyVersion").appendVersion) == old(calls(cast(vsFamily(vs, family), "FamilyVersion").appendVersion))
 //@   ensures[success_installs_exactly_one_version] (result == nil) ==> calls(cast(vsFamily(vs, family), "FamilyVersion").appendVersion) == old(calls(cast(vsFamily(vs, family), "FamilyVersion").appendVersion)) + 1
 //@   ensures[the_record_carries_the_next_file_number] result == nil ==> (len(cast(editLog, "*editLog").logs) == old(len(cast(editLog, "*editLog").logs)) + 1 && typeis(cast(editLog, "*editLog").logs[old(len(cast(editLog, "*editLog").logs))], "*nextFileNumber"))
